@@ -517,6 +517,9 @@ func (g *ArtGen) picture(where string) (string, string) {
 	if g.P.Hidden && g.r.Chance(1, 3) {
 		sb.WriteString(`<span hidden>` + g.toksK(1, KHidden, "hidden-attr") + `</span>`)
 	}
+	if g.P.Hidden && g.r.Chance(1, 3) {
+		sb.WriteString(`<!-- ` + g.toksK(1, KHidden, "comment") + ` -->`)
+	}
 	sb.WriteString(`<img src="` + src + `"` + g.noise() + `>`)
 	if g.P.Hidden && g.r.Chance(1, 3) {
 		sb.WriteString(`<style>` + g.toksK(1, KHidden, "style") + `</style>`)
